@@ -110,6 +110,7 @@ type gate struct {
 	store  *schedStore
 	arrive chan gateEvent
 	permit chan struct{}
+	rec    func(op, key string) // optional: sees every store operation the actor makes
 }
 
 type gateEvent struct {
@@ -119,6 +120,9 @@ type gateEvent struct {
 }
 
 func (g *gate) wait(op, key string) {
+	if g.rec != nil {
+		g.rec(op, key)
+	}
 	if g.arrive == nil { // an unscheduled observer
 		return
 	}
